@@ -296,7 +296,7 @@ struct OlcEngine final : Engine {
       // qsbr_thread started by one of the running threads
       for (auto& ops : c.threads)
         for (size_t i = 0; i <= ops.size(); i++)
-          if (r.chance(0.07)) { Op o; o.kind = O_PAUSE_RESUME; o.key = o.key2 = std::string(static_cast<size_t>(lay.L), '\0'); ops.insert(ops.begin() + static_cast<long>(i), o); i++; }
+          if (r.chance(0.07)) { Op o; o.kind = O_PAUSE_RESUME; o.a = r.chance(0.5) ? 0 : r.range(1, 10); o.b = r.chance(0.5) ? 1 : 0; o.key = o.key2 = std::string(static_cast<size_t>(lay.L), '\0'); ops.insert(ops.begin() + static_cast<long>(i), o); i++; }
       if (nthreads < 4 && r.chance(0.2)) {
         std::vector<Op> ops;
         const int nops = static_cast<int>(r.range(1, 3));
@@ -387,7 +387,7 @@ struct OlcEngine final : Engine {
       case O_SCAN_FROM: return "scan_from(" + hex(o.key) + ", " + (o.a ? "fwd" : "rev") + (o.b > 0 ? ", halt after " + std::to_string(o.b) : "") + ")";
       case O_SCAN_RANGE: return "scan_range(" + hex(o.key) + ", " + hex(o.key2) + (o.b > 0 ? ", halt after " + std::to_string(o.b) : "") + ")";
       case O_QUIESCE: return "quiescent()";
-      case O_PAUSE_RESUME: return "qsbr_pause(); qsbr_resume()";
+      case O_PAUSE_RESUME: return "qsbr_pause(); stay paused for " + std::to_string(o.a + 1) + " scheduling points; qsbr_resume()";
       case O_SPAWN: return "start qsbr_thread running thread #" + std::to_string(o.a + 1);
       default: return "?";
     }
